@@ -86,6 +86,8 @@ def make_table(spec):
         t[int(newid)] = name
     for k in spec.get('drop', []):
         t.pop(int(k), None)
+    for k, v in spec.get('extra', {}).items():       # ids the caller's table names in addition
+        t[int(k)] = v
     return t
 
 
